@@ -193,3 +193,4 @@ def _r02_5(res, P, cfgname):
 
 LEVEL = LEVEL + ' Also (R02.4) the ConstDivisor path enters the long-division kernel whenever the dividend is at least as long as the divisor, and (R19.2, shared) no division step sits inside a debug assertion.'
 TECHNIQUE = 'static analysis of MIR: finite sign/convention tables (FDT) over all ownership forms, dispatcher-estimator agreement by abstract evaluation, must-pass-through zero-divisor guards, debug-region effect analysis'
+LEVEL = LEVEL + ' (R02.5) every call of the 2-by-1 division kernel passes a dividend whose high word is bounded by shape (its debug-only precondition).'
